@@ -1443,7 +1443,7 @@ var AllOps = map[string]func(*G) *Op{
 	"perpetual.open": genPerpOpen, "perpetual.close": genPerpClose, "perpetual.update_stop_loss": genPerpUpdateSL,
 	"perpetual.update_take_profit": genPerpUpdateTP, "perpetual.close_positions": genPerpClosePositions,
 	"oracle.feed_price": genPriceMove, "oracle.refresh": genRefreshPrices, "oracle.feed_nonfeeder": genFeedByNonFeeder,
-	"gov.submit": genGovSubmit, "gov.vote": genGovVote, "gov.deposit": genGovDeposit,
+	"gov.submit": genGovSubmit, "gov.vote": genGovVote, "gov.deposit": genGovDeposit, "gov.vote_delegator": genGovVoteDelegator,
 	"masterchef.claim": genMCClaim, "masterchef.add_external_incentive": genAddExternalIncentive,
 	"commitment.commit_claimed": genCommitClaimed, "commitment.uncommit": genUncommit, "commitment.vest": genVest,
 	"commitment.cancel_vest": genCancelVest, "commitment.claim_vesting": genClaimVesting, "commitment.vest_now": genVestNow,
